@@ -98,6 +98,23 @@ Theorem C04_submitted_assignment :
 Proof. exact submitted_assignment. Qed.
 Print Assumptions C04_submitted_assignment.
 
+(* Calls of Attest that overlap on the one service (the scheduler starts one job per slot, with no
+   mutual exclusion; a call waiting for a slow signer is overtaken by the next slot's) do not enter one
+   another's attestations: in every history, under every interleaving, what call i hands to the
+   submitter is [attestations] of call i's OWN duty, of the data, accounts answer and zero signatures
+   call i's own environment returned, and of a subset of that duty's validators -- a function of
+   nothing else.  (With [C04_assignment] this gives [C04_submitted_assignment]; stated separately
+   because it is the fact a working array shared between calls breaks.) *)
+Theorem C04_submitted_own_duty :
+  forall (spe : N) (rs : list run) (sch : list nat) (i : nat) (atts : list att),
+    In (Submit i atts) (g_trace (exec spe rs sch init)) ->
+    exists r a avail unsigned claimed,
+      nth_error rs i = Some r /\ s_fetch (r_script r) = Some a /\ s_accounts (r_script r) = Some avail /\
+      s_sign (r_script r) = Some unsigned /\ incl claimed (d_vals (r_duty r)) /\
+      atts = attestations (r_duty r) a (sign_args (r_duty r) claimed avail) unsigned.
+Proof. exact submitted_own_duty. Qed.
+Print Assumptions C04_submitted_own_duty.
+
 Theorem C04_signreq_assignment :
   forall (spe : N) (rs : list run) (sch : list nat) (q : signreq),
     In (SignReq q) (g_trace (exec spe rs sch init)) ->
@@ -220,3 +237,26 @@ Proof.
   - intros r [<-|[<-|[]]]; reflexivity.
   - intros r r' [<-|[<-|[]]] [<-|[<-|[]]]; cbn; intros; try reflexivity; discriminate.
 Qed.
+
+(* Non-vacuity of "any interleaving" in [C04_submitted_assignment]: two calls of Attest for two slots
+   overlap on the one service (corpus/C04/overlapping-slots-slow-signer.json).  Call 0 (slot 100,
+   validator 1, committee 3 of 8 members, position 2) has asked its signer and waits; call 1 (slot
+   101, validator 2, committee 7 of 9 members, position 5) runs from start to end meanwhile; then
+   call 0's signatures arrive.  Each call submits its own duty's committee index, committee size and
+   position bit. *)
+Definition ex_overlap_runs : list run :=
+  [ {| r_duty := {| d_slot := 100; d_vals := [1]; d_comms := [3]; d_poss := [2]; d_sizes := [(3, 8)] |};
+       r_script := {| s_fetch := Some {| a_slot := 100; a_root := 11; a_src := 2; a_src_root := 12; a_tgt := 3; a_tgt_root := 13 |};
+                      s_accounts := Some [1; 2]; s_sign := Some []; s_submit := true |} |};
+    {| r_duty := {| d_slot := 101; d_vals := [2]; d_comms := [7]; d_poss := [5]; d_sizes := [(7, 9)] |};
+       r_script := {| s_fetch := Some {| a_slot := 101; a_root := 21; a_src := 2; a_src_root := 22; a_tgt := 3; a_tgt_root := 23 |};
+                      s_accounts := Some [1; 2]; s_sign := Some []; s_submit := true |} |} ].
+
+Example C04_overlap_example :
+  map (fun ev => match ev with
+                 | SignReq q => (sr_run q, sr_pairs q, [])
+                 | Submit i atts => (i, [], map (fun x => (fst (at_sig x), vt_comm (at_vote x), at_len x, at_bits x)) atts)
+                 end)
+      (g_trace (exec 32 ex_overlap_runs [0; 0; 0; 0;  1; 1; 1; 1; 1; 1; 1;  0; 0; 0]%nat init)) =
+  [ (0%nat, [(1, 3)], []); (1%nat, [(2, 7)], []); (1%nat, [], [(2, 7, 9, [5])]); (0%nat, [], [(1, 3, 8, [2])]) ].
+Proof. vm_compute. reflexivity. Qed.
